@@ -312,6 +312,26 @@ func init() {
 	})
 
 	register("e2e", "end-to-end: real TLS handshakes (crypto/tls and utls presets) through the real proxy stack to a recording backend", func(c *ctx) {
+		// several requests on ONE HTTP/2 connection with fingerprint-relevant frames between them (PRIORITY, HEADERS carrying
+		// priority, a new SETTINGS frame, the first WINDOW_UPDATE, another pseudo-header order): every request's header is
+		// the history up to ITS OWN HEADERS, not the first request's
+		for _, client := range []string{"go", "utls-chrome"} {
+			rq := func(order string) string { return e2eReqTok("GET", "/", "example.test", "verif/1.0", true, order, nil) }
+			c.tag("h2-history-grows-between-requests")
+			c.op(fmt.Sprintf("e2e proto=h2 client=%s alpn=h2 sni=example.test peer=127.0.0.1 seg=0 probe=0 ph=0 maxprio=10000 reqs=%s frames=%s",
+				client, strings.Join([]string{rq("mspa"), rq("pams"), rq("samp")}, ";"),
+				"S:,H:1.1.-.0.0,P:9.0.0.100,H:3.1.5_1_15.1.0,S:4.1048576;3.50,W:0.77,H:5.1.-.2.0"))
+		}
+		// the hello and an early change_cipher_spec record in one write, on both protocols
+		for _, pa := range [][2]string{{"h1", "http/1.1"}, {"h2", "h2"}} {
+			fr := "-"
+			if pa[0] == "h2" {
+				fr = "S:,H:1.1.-.0.0"
+			}
+			c.tag("hello-plus-ccs-in-one-write")
+			c.op(fmt.Sprintf("e2e proto=%s client=go alpn=%s sni=example.test peer=127.0.0.1 seg=0 probe=0 ph=0 maxprio=10000 ccs=1 curves=%s reqs=%s frames=%s",
+				pa[0], pa[1], hx(u16s([]uint16{29})), e2eReqTok("GET", "/", "example.test", "verif/1.0", true, "mspa", nil), fr))
+		}
 		for i := 0; i < c.count; i++ {
 			r := c.rng.fork()
 			line := "e2e " + genE2EScenario(c, r, false)
@@ -437,10 +457,16 @@ func genE2EScenario(c *ctx, r *rng, sub bool) string {
 				seg = 0
 				c.tag("hello-over-two-records")
 			}
-			if kind == "go" && seg == 0 && !strings.Contains(extraOpts, "tlsmax") && !strings.Contains(extraOpts, "frag") && r.chance(1, 2) {
+			if kind == "go" && !strings.Contains(extraOpts, "tlsmax") && !strings.Contains(extraOpts, "frag") && r.chance(1, 2) {
+				seg = 0
 				// the hello and an early change_cipher_spec record arrive in one segment: whatever follows the first record
 				// in the first read belongs to the TLS layer, not to the captured hello
 				extraOpts += " ccs=1"
+				if !strings.Contains(extraOpts, "curves=") {
+					// a hello without a post-quantum key share fits, together with the record that follows it, into the
+					// first read of the TLS layer
+					extraOpts += " curves=" + hx(u16s([]uint16{29}))
+				}
 				c.tag("hello-plus-ccs-in-one-write")
 			}
 			return fmt.Sprintf("proto=%s client=%s alpn=%s sni=%s peer=%s seg=%d%s%s reqs=%s frames=%s", proto, kind, alpn, sni, peer,
